@@ -1,7 +1,7 @@
 """Shared by the checks that are tied through the full-stack harness (stackdrv) and the Lean
 system model (rie-oracle sys): run scenario families on the REAL emulator stack, replay every
 trace on the model, re-examine disagreements, judge with model-free monitors."""
-import glob, os, re, shutil, subprocess
+import glob, os, re, shutil, subprocess, time
 from . import common as C
 from . import monitors as M
 
@@ -110,11 +110,21 @@ def replay_case(ctx, cid, case, tag, upto=None, careful=True):
 
 def confirm(ctx, result, prop, monitors, theorem_names):
     """Re-examine disagreements and crashes; run the model-free monitors on every trace."""
+    # Re-runs of a wedged emulator take minutes each: once something is confirmed and the budget is used
+    # up (or six violations are recorded) the remaining complaints are only counted.
+    t_confirm = time.time()
+    budget = 1500 if ctx.tier == "thorough" else 420
+    def spent():
+        return len(ctx.violations) >= 6 or (ctx.violations and time.time() - t_confirm > budget)
     # 1. model-free monitors on everything explored
     for fam, out, cases in result["traces"]:
         for cid, case in cases.items():
             for mon in monitors:
                 for complaint in mon(case):
+                    if spent():
+                        ctx.cov.setdefault("unconfirmed_after_budget", 0)
+                        ctx.cov["unconfirmed_after_budget"] += 1
+                        break
                     sig = f"{prop}:{mon.__name__}:{M.signature(case, complaint)}"
                     # a monitor complaint must reproduce as well (racy harness artefacts never count)
                     rc, _, case2, _ = replay_case(ctx, cid, case, "mon")
@@ -130,7 +140,7 @@ def confirm(ctx, result, prop, monitors, theorem_names):
     # 2. disagreements with the Lean model must reproduce in two careful re-runs
     seen = 0
     for fam, cid, step, case, line in result["disagreements"]:
-        if seen >= 6:
+        if seen >= 6 or spent():
             break
         r1 = replay_case(ctx, cid, case, "d1")
         r2 = replay_case(ctx, cid, case, "d2")
